@@ -145,6 +145,10 @@ pub fn take_until_and_not<'a>(
                 (Some(offset), None) => {
                     Ok(i.take_split(index + offset)).map(|(rem, res)| (rem, res.into_inner()))
                 }
+                // the first `end_tag` is not part of a `however_tag`, which only occurs further on
+                (Some(offset), Some(however_offset)) if offset < however_offset => {
+                    Ok(i.take_split(index + offset)).map(|(rem, res)| (rem, res.into_inner()))
+                }
                 (Some(_), Some(offset)) => recursive_until(i, index + offset + 2, t1, t2),
             }
         }
